@@ -16,6 +16,7 @@ ENGINES = [
     {"name": "E5 homogeneity typing", "path": "geolint/homog.py", "serves_properties": ["C03", "C17", "C09", "C11"], "kind_free_text": "dimensional-analysis type system: abstract interpretation with path enumeration, degree maps per argument symbol (geolint/hv.py), sinks = order/sign decisions, equalities, numeric returns, point constructions, affine weights"},
     {"name": "mutation self-test", "path": "geolint/selftest.py", "serves_properties": [], "kind_free_text": "in-memory textual variants of the current tree: breaking variants must be reported with the named rule, twins must be silent"},
     {"name": "E11 sign-domain membership", "path": "geolint/signdom.py", "serves_properties": ["C16"], "kind_free_text": "abstract interpretation of Triangle.contains over the finite domain of sign vectors of its barycentric determinants (exhaustive, both orientations, scalar and vectorised path) against the closed-triangle specification; closedness rules for the bound comparisons of the segment test and the boundary/coplanarity conjuncts of the polygon test"},
+    {"name": "E12 closed-form kernels", "path": "geolint/polyform.py", "serves_properties": ["C20"], "kind_free_text": "normal form of entry-wise expressions as polynomials over matrix-entry atoms compared with the Leibniz expansion; evaluation of literal fancy-index tables and constant slice patterns as index sets compared with the cofactor and Levi-Civita definitions"},
     {"name": "E9 kind dispatch", "path": "geolint/dispatch.py", "serves_properties": ["C09"], "kind_free_text": "decision-list evaluation of isinstance dispatch over all ordered pairs of concrete kinds with static class hierarchy; reduction graph, cycles, documented pairs, kind-blind equality short-cut"},
 ]
 
@@ -25,7 +26,6 @@ NOT_APPLICABLE = [
     {"property_id": "C10", "reason": "perpendicular/parallel/projection/mirror are metric identities on coordinates; the only structural fact (complete initialisation of the np.empty buffer) is checked under C04"},
     {"property_id": "C13", "reason": "containment of defining points, foci, radii and areas are numeric (Circle.area = 2*pi*r^2 was seen while reading but no shape rule separates 2*pi from pi)"},
     {"property_id": "C15", "reason": "square-root sign choices and root selection in the decomposition are value-level"},
-    {"property_id": "C20", "reason": "agreement of det/adjugate/inv/roots with exact linear algebra on both sides of size thresholds is value-level; purity of adjugate's in-place sign flips is covered by C12"},
 ]
 
 CHECKS = [
@@ -112,6 +112,12 @@ CHECKS = [
         "technique": "abstract interpretation over a finite sign domain (values touched only through comparisons with 0) with exhaustive enumeration of sign vectors; AST rules on bound comparisons and on the conjuncts/disjuncts of the returned membership",
         "text": "The part of C16 that lives in comparisons rather than in numbers: Triangle.contains, interpreted over every sign vector of its three barycentric determinants and both orientations (scalar and vectorised path), is True exactly on the closed triangle - vertices and edges included, nothing on the extension of an edge, independent of the direction of the vertex cycle; the two bounds of the segment test are closed (non-strict or widened by the tolerance on the permissive side) and conjoined with membership in the supporting line; the crossing-number parity of the polygon test is joined with edge membership of the query point and the 3D branch requires coplanarity. NOT decided: the crossing-number special cases (ray through a vertex, collinear edges), the projection of embedded polygons, the values of the determinants (their representative independence is C03), rays with an end point at infinity.",
         "note": "trusts that det(stack([p,b,c])), det(stack([a,p,c])), det(stack([a,b,p])) are the barycentric coordinates up to a common positive factor (recognised by row replacement; a wrong vertex replaced is a documented blind spot); constructs outside the sign interpreter's vocabulary give UNDECIDED",
+    },
+    {
+        "id": "C20", "engine": "E12 closed-form kernels", "design_ref": "4 (E12), 5 C20",
+        "technique": "term normalisation of closed-form return expressions into polynomials over matrix-entry atoms (no execution, no solver) and constant evaluation of literal index tables / slice patterns, each compared with the textbook definition",
+        "text": "ONLY the closed-form branches that the size thresholds of det/adjugate/inv/hat_matrix select, as algebra and index tables: every `n == k` closed form of det is the Leibniz polynomial of the k x k determinant (all k! signed monomials); the 2x2 index table of adjugate with its sign flips is [[A11,-A01],[-A10,A00]]; the minor path transposes the matrix of minors once, negates exactly the positions with odd i+j for every n, and pairs the minor stored at (i,j) with row i and column j; the closed form of inv is adjugate(A)/det(A) with the determinant broadcast over both matrix axes after a singularity test; the 3D index table of hat_matrix is H[r,s] = eps(r,s,t) x[t]. NOT decided: which inputs reach which branch, the numpy fall-backs, the epsilon-diagram branch of adjugate, null_space, orth, roots (a lost triple root is a known, unclaimed defect), is_multiple, matmul/matvec/outer.",
+        "note": "a closed form written outside the vocabulary (+ - * of entries and locals; literal tables; constant slices) is UNDECIDED; this decides formulas, not floating-point results",
     },
     {
         "id": "C17", "engine": "E5 homogeneity typing", "design_ref": "4 (E5 affine facet), 5 C17",
